@@ -442,13 +442,14 @@ structure Frame (s s' : State) : Prop where
     (c'.smap.length = c.smap.length → c'.smap = c.smap ∧
       ∀ cls a, c.cache.lookup cls = some a → c'.cache.lookup cls = some a)
   subs : ∀ k b, s.subs.lookup k = some b → s'.subs.lookup k = some b
-  enums : s'.enums = s.enums
+  enumKeys : ∀ e ec, s.enums.lookup e = some ec → ∃ ec', s'.enums.lookup e = some ec'
 
 theorem Frame.refl (s : State) : Frame s s :=
-  ⟨fun _ _ h => h, fun _ c h => ⟨c, h, rfl, rfl, Nat.le_refl _, fun _ => ⟨rfl, fun _ _ h => h⟩⟩, fun _ _ h => h, rfl⟩
+  ⟨fun _ _ h => h, fun _ c h => ⟨c, h, rfl, rfl, Nat.le_refl _, fun _ => ⟨rfl, fun _ _ h => h⟩⟩, fun _ _ h => h, fun _ ec h => ⟨ec, h⟩⟩
 
 theorem Frame.trans {a b c : State} (h1 : Frame a b) (h2 : Frame b c) : Frame a c := by
-  refine ⟨fun x p h => h2.heap x p (h1.heap x p h), ?_, fun k x h => h2.subs k x (h1.subs k x h), h2.enums.trans h1.enums⟩
+  refine ⟨fun x p h => h2.heap x p (h1.heap x p h), ?_, fun k x h => h2.subs k x (h1.subs k x h),
+    fun e ec h => by obtain ⟨ec1, h'⟩ := h1.enumKeys e ec h; exact h2.enumKeys e ec1 h'⟩
   intro k c0 h
   obtain ⟨c1, e1, e2, e2', l1, s1⟩ := h1.confs k c0 h
   obtain ⟨c2, e3, e4, e4', l2, s2⟩ := h2.confs k c1 e1
@@ -464,7 +465,7 @@ theorem frame_setConf (cfg : Cfg) (s : State) (k : ConfId) (old new : Conf) (c :
     (hk : s.confs.lookup k = some c) (hs : ConfStep cfg c new) :
     Frame s (setConf cfg s k old new) := by
   obtain ⟨hheap, hsubs, _, henums, _, _⟩ := setConf_rest cfg s k old new
-  refine ⟨fun a p h => by rw [hheap]; exact h, ?_, fun x b h => by rw [hsubs]; exact h, henums⟩
+  refine ⟨fun a p h => by rw [hheap]; exact h, ?_, fun x b h => by rw [hsubs]; exact h, fun e ec h => ⟨ec, by rw [henums]; exact h⟩⟩
   intro k' c' h
   rw [setConf_confs, lookup_putConf]
   by_cases e : k' = k
@@ -478,14 +479,14 @@ theorem frame_setConf (cfg : Cfg) (s : State) (k : ConfId) (old new : Conf) (c :
 theorem frame_allocPal (s : State) (a : Addr) (p : Pal) (ha : a ∉ s.heap.map Prod.fst) :
     Frame s (allocPal s a p) :=
   ⟨fun _ _ h => lookup_heap_cons ha h,
-   fun _ c h => ⟨c, h, rfl, rfl, Nat.le_refl _, fun _ => ⟨rfl, fun _ _ hh => hh⟩⟩, fun _ _ h => h, rfl⟩
+   fun _ c h => ⟨c, h, rfl, rfl, Nat.le_refl _, fun _ => ⟨rfl, fun _ _ hh => hh⟩⟩, fun _ _ h => h, fun _ ec h => ⟨ec, h⟩⟩
 
 theorem frame_cachePal (s : State) (k : ConfId) (cls : ClassId) (a : Addr)
     (hmiss : ∀ c, s.confs.lookup k = some c → c.cache.lookup cls = none) : Frame s (cachePal s k cls a) := by
   unfold cachePal
   split
   · rename_i c hk
-    refine ⟨fun _ _ h => h, ?_, fun _ _ h => h, rfl⟩
+    refine ⟨fun _ _ h => h, ?_, fun _ _ h => h, fun _ ec h => ⟨ec, h⟩⟩
     intro k' c' h
     rw [lookup_putConf]
     by_cases e : k' = k
@@ -499,7 +500,7 @@ theorem frame_cachePal (s : State) (k : ConfId) (cls : ClassId) (a : Addr)
   · exact Frame.refl s
 
 theorem frame_cacheNc (s : State) (cls : ClassId) (a : Addr) : Frame s (cacheNc s cls a) :=
-  ⟨fun _ _ h => h, fun _ c h => ⟨c, h, rfl, rfl, Nat.le_refl _, fun _ => ⟨rfl, fun _ _ hh => hh⟩⟩, fun _ _ h => h, rfl⟩
+  ⟨fun _ _ h => h, fun _ c h => ⟨c, h, rfl, rfl, Nat.le_refl _, fun _ => ⟨rfl, fun _ _ hh => hh⟩⟩, fun _ _ h => h, fun _ ec h => ⟨ec, h⟩⟩
 
 theorem registerCls_ok {cfg : Cfg} (hcfg : cfgOk cfg = true) {cls : ClassId} {c c' : Conf} (hc : ConfOk cfg c)
     (h : registerCls cfg cls c = .ok c') : ConfOk cfg c' ∧ ConfStep cfg c c' :=
@@ -666,7 +667,7 @@ theorem getSub_spec {cfg : Cfg} (hcfg : cfgOk cfg = true) {alloc : Alloc} (hal :
           rw [hk] at q1; cases q1
           exact hinv1.cur k cf c _ pb ci2 hk q2 hb1 hci2
         refine ⟨inv_memoSub hinv1 (hfr.heap pa pp hpa) hb1 hb2 hb3 hb4 h6, ?_, by simp [memoSub]⟩
-        refine ⟨hfr.heap, hfr.confs, ?_, hfr.enums⟩
+        refine ⟨hfr.heap, hfr.confs, ?_, hfr.enumKeys⟩
         intro k0 b0 h0
         have := hfr.subs k0 b0 h0
         simp only [memoSub]
